@@ -20,7 +20,7 @@ var (
 	wdStarted int32
 	wdWhat    atomic.Value
 	// WatchdogLimit is the real time one run may take.
-	WatchdogLimit = 60 * time.Second
+	WatchdogLimit = 240 * time.Second
 )
 
 // Arm starts the watchdog for one run.
